@@ -67,9 +67,10 @@ def rule_intern(crate):
                     kinds = {classify(c["l"]), classify(c["r"])}
                     cf, cline = crate.loc(b, c)
                     key = "%s:lookup" % d.replace("crate::vm::Vm::", "")
-                    if kinds == {"elem", "param"}:
-                        out.ok(key, cf, cline, "entries are compared as a whole (or by their destructured key) with the argument")
-                    elif "elem-proj" in kinds and ("param-proj" in kinds or "param" in kinds) and whole_elem:
+                    if kinds == {"elem", "param"} or kinds == {"elem-proj", "param"}:
+                        # whole entry == whole argument, or the key component/field of the entry == the key argument
+                        out.ok(key, cf, cline, "entries are compared as a whole, or by their key with the key argument")
+                    elif kinds == {"elem-proj", "param-proj"} and whole_elem:
                         out.violation(key, cf, cline, "%s looks for an existing entry by comparing a projection of the entry with a projection of the new value: different values that agree on it share one table slot, and the bytecode of the second refers to the first (`1 QB` then `1 GiB -> B` gives 1.0e+30 B: Metric(30) and Binary(30) have the same exponent)" % d.replace("crate::", ""))
                     else:
                         out.advisory(key, cf, cline, "comparison of kinds %s not classified" % sorted(kinds))
